@@ -89,6 +89,23 @@ Theorem C28_offset_at : forall c q series,
   engine_eval c q series = spec_eval c q series.
 Proof. exact engine_eq_spec. Qed.
 
+(* the shift made explicit: a range selector with offset / @ evaluated at T returns what the plain
+   selector returns at the shifted / fixed time (matrix points carry the samples' own times) *)
+Theorem C28_range_shift : forall T lb d r off a series,
+  sortedb series = true -> above_min series -> 0 < lb -> 0 < d -> 0 < r ->
+  minInt64 + r < eff T off a ->
+  engine_eval (mkCfg T lb d) (QRange r off a) series =
+  engine_eval (mkCfg (eff T off a) lb d) (QRange r 0 None) series.
+Proof.
+  intros T lb d r off a series Hs Hm Hlb Hd Hr Hg.
+  assert (Hwf : forall T' o' a', wf_query (mkCfg T' lb d) (QRange r o' a') = true).
+  { intros. unfold wf_query. cbn [c_lookback c_defstep].
+    rewrite !(proj2 (Z.ltb_lt _ _)) by assumption. reflexivity. }
+  rewrite !C28_offset_at; auto.
+  - unfold spec_eval. cbn [c_ts]. unfold eff at 2. now rewrite Z.sub_0_r.
+  - cbn [min_guard c_ts]. unfold eff at 1. lia.
+Qed.
+
 (* --- the select hints of getTimeRangesForSelector cover every sample the statement needs ... *)
 Theorem C28_hints_cover : forall c q series,
   wf_query c q = true ->
